@@ -23,7 +23,7 @@ def main():
             for p, v in d.items():
                 if isinstance(v, dict): checks.setdefault(p, []).append({"run": os.path.basename(cf), "exit": v["exit"], "seconds": v["s"], "first_lines": v["lines"][:2]})
         notes = open(f"{src}/notes.md").read() if os.path.exists(f"{src}/notes.md") else ""
-        meta = {"seed_id": sid, "breaks_property": sid.split("-")[0], "source": "independent sub-agent given only the property text and a scratch worktree",
+        meta = {"seed_id": sid, "breaks_property": sid.split("-")[0].rstrip("b"), "source": "independent sub-agent given only the property text and a scratch worktree",
                 "needs_to_manifest": notes[:1500],
                 "confirmed_here": {"patch_applies": True, "existing_suite_passes_with_change": True, "suite_tests_passed": conf.get("suite_passed"),
                                    "demo_fails_with_change": True, "demo_passes_without_change": True, "commands": "lib/seedtool.py confirm (git apply in /tmp/seed/<id>; cargo test --workspace --no-fail-fast --offline; cargo test --test <demo>)"},
